@@ -74,8 +74,23 @@ structure World where
   weights : Weights := []
   regions : KV Meta := []
   rs      : RS := { batchSize := batchSizeC }
+  /-- LoadRegionsOnce has succeeded on this Storage object (region backend) -/
+  onceLoaded : Bool := false
 
-def isRS (w : World) : Bool := w.backend == "rs"
+def isRS (w : World) : Bool := w.backend == "rs" || w.backend == "rsg"
+
+/-- how an unreadable record under the region key of `id` is written down (the harness refuses to save a
+    genuine region with these values) -/
+def corruptMeta (id : Nat) : Meta := { id := id, startKey := 0, endKey := 0, confVer := 0, version := 0, peers := [] }
+
+/-- the record cannot be unmarshalled -/
+def badRecord (e : Nat × Meta) : Bool := e.2 == corruptMeta e.1
+
+def isReserved (m : Meta) : Bool := m.startKey == 0 && m.endKey == 0 && m.confVer == 0 && m.version == 0
+
+/-- float64 bits of 1.5 and 2.0: the bulk `weights` op saves 1.5 + k ulp / 2.0 + k ulp -/
+def bits15 : Nat := 4609434218613702656
+def bits20 : Nat := 4611686018427387904
 
 def regionKV (w : World) : KV Meta := if isRS w then w.rs.ldb else w.regions
 
@@ -89,7 +104,7 @@ def modelStep (w : World) (ws : List String) : World × String :=
   match ws with
   | ["reset"] => ({}, "ok")
   | ["open", b] =>
-    if w.opened || !(b == "mem" || b == "etcd" || b == "rs") then bad
+    if w.opened || !(b == "mem" || b == "etcd" || b == "rs" || b == "rsg") then bad
     else ({ w with backend := b, opened := true }, "ok")
   | _ =>
     if !w.opened then bad else
@@ -111,8 +126,18 @@ def modelStep (w : World) (ws : List String) : World × String :=
         (w, s!"{errWord e} {fmtStores sitems}")
     | ["region", spec] =>
       match parseMeta spec with
-      | some m => (saveRegion w m, "ok")
+      | some m => if isReserved m then bad else (saveRegion w m, "ok")
       | none => bad
+    | ["corrupt", i] =>
+      let m := corruptMeta (natArg i)
+      if isRS w then ({ w with rs := { w.rs with ldb := kvSave w.rs.ldb m.id m } }, "ok")
+      else ({ w with regions := kvSave w.regions m.id m }, "ok")
+    | ["weights", n, st, step] =>
+      let ws' := (List.range (natArg n)).foldl
+        (fun wt k => weightsSave wt (natArg st + k * natArg step) (bits15 + k) (bits20 + k)) w.weights
+      ({ w with weights := ws' }, "ok")
+    | ["race", i] =>
+      if w.backend != "rsg" then bad else ({ w with rs := (w.rs.delete (natArg i)).flush }, "ok")
     | ["regions", n, st, step, width] =>
       let w' := (List.range (natArg n)).foldl (fun w k =>
         saveRegion w (bulkMeta (natArg st) (natArg step) (natArg width) k)) w
@@ -134,20 +159,39 @@ def modelStep (w : World) (ws : List String) : World × String :=
           { w with rs := { w.rs with ldb := kv', batch := w.rs.batch.filter (fun e => !gone.contains e.1) } }
         else { w with regions := kv' }
       if mode == "plain" then
-        match loadRegions plainCb maxLimitC minLimitC kv () errs with
+        match loadRegions plainCb badRecord maxLimitC minLimitC kv () errs with
         | none => (w, "out-of-fuel")
         | some (e, s) => (w, s!"{errWord e} {fmtRegions "" (s.loaded.map (·.2))}")
       else if mode == "prune" then
-        match loadRegions pruneCb maxLimitC minLimitC kv ([] : Cache) errs with
+        match loadRegions pruneCb badRecord maxLimitC minLimitC kv ([] : Cache) errs with
         | none => (w, "out-of-fuel")
         | some (e, s) =>
           let w' := setKV w s.kv
           let cache := (s.cb.map (·.md)).mergeSort (fun a b => a.id ≤ b.id)
           (w', s!"{errWord e} {fmtRegions "" (s.loaded.map (·.2))} {fmtRegions "c" cache} {fmtRegions "k" ((regionKV w').map (·.2))}")
       else bad
+    | "loadonce" :: rest =>
+      if rest.length > 1 || (rest.length == 1 && isRS w) then bad else
+      let errs := parsePattern (rest.headD "")
+      let kv := regionKV w
+      let r := loadRegionsOnce pruneCb badRecord maxLimitC minLimitC (isRS w && w.onceLoaded) kv ([] : Cache) errs
+      match r.2 with
+      | none =>
+        -- already loaded: the callback sees nothing, the storage is not touched
+        (w, s!"ok {fmtRegions "" []} {fmtRegions "c" []} {fmtRegions "k" (kv.map (·.2))}")
+      | some none => (w, "out-of-fuel")
+      | some (some (e, s)) =>
+        let w1 : World :=
+          if isRS w then
+            let gone := (kv.map (·.1)).filter (fun i => !(s.kv.any (fun x => x.1 == i)))
+            { w with rs := { w.rs with ldb := s.kv, batch := w.rs.batch.filter (fun x => !gone.contains x.1) },
+                     onceLoaded := r.1 }
+          else { w with regions := s.kv }
+        let cache := (s.cb.map (·.md)).mergeSort (fun a b => a.id ≤ b.id)
+        (w1, s!"{errWord e} {fmtRegions "" (s.loaded.map (·.2))} {fmtRegions "c" cache} {fmtRegions "k" ((regionKV w1).map (·.2))}")
     | ["flush"] => (if isRS w then { w with rs := w.rs.flush } else w, "ok")
-    | ["close"] => (if isRS w then { w with rs := w.rs.flush } else w, "ok")
-    | ["crash"] => if isRS w then ({ w with rs := w.rs.crash }, "ok") else bad
+    | ["close"] => (if isRS w then { w with rs := w.rs.flush, onceLoaded := false } else w, "ok")
+    | ["crash"] => if isRS w then ({ w with rs := w.rs.crash, onceLoaded := false }, "ok") else bad
     | ["bgflush"] => if isRS w then ({ w with rs := w.rs.flush }, "ok") else bad
     | _ => bad
 
@@ -159,6 +203,7 @@ structure Mon where
   weights   : List (Nat × (Nat × Nat)) := []
   regions   : C17.Track Meta := {}
   lost      : Bool := false                           -- tracking given up (op on a stopped process before a load)
+  onceDone  : Bool := false                           -- a LoadRegionsOnce has returned success on this Storage (region backend)
 
 def field (obs : String) (key : String) : Option String :=
   (words obs).findSome? (fun w => if w.startsWith (key ++ "=") then some (w.drop (key.length + 1)).toString else none)
@@ -220,11 +265,16 @@ def monitor (m : Mon) (ws : List String) (impl : String) : Mon × List String :=
   let okObs := impl == "ok" || impl.startsWith "ok "
   match ws with
   | ["reset"] => ({}, [])
-  | ["open", b] => ({ m with rsBackend := b == "rs" }, [])
+  | ["open", b] => ({ m with rsBackend := b == "rs" || b == "rsg" }, [])
   | _ =>
     if m.lost then (m, []) else
     -- an op other than a full load on a stopped process: give up tracking this sequence
-    let isLoad := match ws with | "loadregions" :: _ => true | _ => false
+    let isLoad := match ws with | "loadregions" :: _ => true | "loadonce" :: _ => true | _ => false
+    -- LoadRegionsOnce: a full pruning load, unless it has already succeeded on this Storage object
+    let once := match ws with | "loadonce" :: _ => true | _ => false
+    if once && m.rsBackend && m.onceDone then (m, []) else
+    let ws := if once then "loadregions" :: "prune" :: ws.drop 1 else ws
+    let m := if once && okObs && m.rsBackend then { m with onceDone := true } else m
     if m.regions.crashed && !isLoad then ({ m with lost := true }, []) else
     match ws with
     | ["store", i, v] => (if okObs then { m with stores := C17.mput m.stores (natArg i) (natArg v) } else m, [])
@@ -233,6 +283,10 @@ def monitor (m : Mon) (ws : List String) (impl : String) : Mon × List String :=
     | ["delstore", i] => (if okObs then { m with stores := C17.merase m.stores (natArg i) } else m, [])
     | ["weight", i, l, r] =>
       (if okObs then { m with weights := m.weights.filter (fun e => e.1 != natArg i) ++ [(natArg i, (natArg l, natArg r))] } else m, [])
+    | ["weights", n, st, step] =>
+      (if okObs then { m with weights := (List.range (natArg n)).foldl (fun wt k =>
+          weightsSave wt (natArg st + k * natArg step) (bits15 + k) (bits20 + k)) m.weights } else m, [])
+    | ["race", i] => (if okObs then { m with regions := (m.regions.delete (natArg i)).flush } else m, [])
     | "loadstores" :: _ =>
       if !okObs then (m, []) else
       (m, judgeLoad "stores" (fun e => sitemSum e.2) (expectedStores m) impl ""
@@ -244,14 +298,24 @@ def monitor (m : Mon) (ws : List String) (impl : String) : Mon × List String :=
     | ["regions", n, st, step, width] =>
       (if okObs then { m with regions := trackBulk m.regions (natArg n) (natArg st) (natArg step) (natArg width) } else m, [])
     | ["delregion", i] => (if okObs then { m with regions := m.regions.delete (natArg i) } else m, [])
-    | ["flush"] | ["close"] | ["bgflush"] => (if okObs then { m with regions := m.regions.flush } else m, [])
-    | ["crash"] => (if okObs then { m with regions := m.regions.crash } else m, [])
+    | ["flush"] | ["bgflush"] => (if okObs then { m with regions := m.regions.flush } else m, [])
+    | ["close"] => (if okObs then { m with regions := m.regions.flush, onceDone := false } else m, [])
+    | ["crash"] => (if okObs then { m with regions := m.regions.crash, onceDone := false } else m, [])
     | ["loadregion", i] =>
       if !okObs || (m.rsBackend && m.regions.dirty) then (m, []) else
       let exp := match C17.mget m.regions.cur (natArg i) with | some r => s!"ok {fmtMeta r}" | none => "ok none"
       (m, if impl == exp then [] else [s!"sig=C17.single-load-wrong id={natArg i} expected={exp} got={impl}"])
     | "loadregions" :: mode :: _ =>
-      if !okObs then (m, []) else
+      if !okObs then
+        -- a load that failed part-way: nothing to judge, but what it pruned before the failure is gone
+        if mode != "prune" then (m, []) else
+        match field impl "ids", field impl "kids" with
+        | some li, some ki =>
+          let kids := parseIDs ki
+          let gone := (parseIDs li).filter (fun i => !kids.contains i)
+          ({ m with regions := gone.foldl (fun t i => t.delete i) m.regions }, [])
+        | _, _ => (m, [])
+      else
       let t := m.regions
       -- what the callback was given
       let (t1, fails1) :=
